@@ -26,7 +26,12 @@ ASSUMPTIONS = [
     "true OS-level interleavings inside dask's thread pool are sampled, not controlled; execution orders of the delayed graph are harness-owned",
     "test folds hold at least 2 points with non-constant data (R2 is undefined otherwise)",
 ]
-SCORERS = [None, "r2", "neg_mean_squared_error", "neg_root_mean_squared_error", "neg_mean_absolute_error", "callable:mae", "make_scorer:mae"]
+SCORERS = [None, "r2", "neg_mean_squared_error", "neg_root_mean_squared_error", "neg_mean_absolute_error", "callable:mae", "make_scorer:mae", "callable:maxerr"]
+
+
+def _callable_maxerr(estimator, X, y, sample_weight=None):
+    """a scorer that is not an average over samples (and ignores weights): minus the largest absolute residual"""
+    return -float(np.max(np.abs(np.asarray(y, dtype="float64").ravel() - np.asarray(estimator.predict(X), dtype="float64").ravel())))
 
 
 def _callable_mae(estimator, X, y, sample_weight=None):
@@ -41,6 +46,8 @@ def scoring_object(name):
     """what is handed to verde for a scoring entry of a case (names stay names; the two ':mae' entries are scorer objects)"""
     if name == "callable:mae":
         return _callable_mae
+    if name == "callable:maxerr":
+        return _callable_maxerr
     if name == "make_scorer:mae":
         from sklearn.metrics import make_scorer, mean_absolute_error
 
@@ -75,6 +82,8 @@ def metric(name, y, p, w):
         return -mse
     if name == "neg_root_mean_squared_error":
         return -np.sqrt(mse)
+    if name == "callable:maxerr":
+        return -float(np.max(np.abs(y - p)))
     if name in ("neg_mean_absolute_error", "callable:mae", "make_scorer:mae"):
         return -np.sum(w * np.abs(y - p)) / np.sum(w)
     raise ValueError(name)
